@@ -382,6 +382,25 @@ func (d *driver) finish() int {
 				}
 			}
 		}
+		if !reproduced && f.Tape != nil {
+			// perhaps the verdict depends on state that survived from earlier
+			// cases of the same process: replay with that history
+			rf.Tape = nil
+			rf.Prelude = &Prelude{Worker: f.Worker, NWorkers: f.NWorkers, From: f.From}
+			rf.Note = "the verdict depends on what ran earlier in the same process (state surviving between calls): the replay re-runs the preceding cases of that worker first"
+			must(writeJSON(path, rf))
+			res2, stderr2, _, _ := d.execReplay(bin, path)
+			if res2 != nil {
+				if vs, ok := res2["violations"].([]any); ok {
+					for _, v := range vs {
+						if m, ok := v.(map[string]any); ok && m["signature"] == sig && m["property"] == d.prop {
+							reproduced = true
+						}
+					}
+				}
+			}
+			stderr += stderr2
+		}
 		if !reproduced {
 			d.infra = append(d.infra, fmt.Sprintf("non-replayable: %s (replay %s) %s", sig, path, tail(stderr, 1500)))
 			continue
